@@ -4,6 +4,7 @@ from rules import limits as LM
 from rules import shape as SH
 from rules import locking as L
 from rules import misc as M
+from rules import operators as OP
 
 
 def run(ctx):
@@ -16,6 +17,7 @@ def run(ctx):
     ctx.run(L.lck10_no_reentrant_acquisition, scope_prefixes=['engine::execution::query_task::', 'scheduler::shared_sender::', 'locustdb::'])
     ctx.run(M.ord13_top_n_limit_zero)
     ctx.run(S.pan4_constant_result_columns)
+    ctx.run(OP.pan8_range_arithmetic)
     return ctx.finish(
         'Static analysis of compiler MIR + syntax tree: the text -> AST -> Query -> task shell has '
         'no explicit panic source (unwrap/expect/panic!/assert/index) except tabled, reasoned '
